@@ -102,6 +102,7 @@ def corrupt(rng, s):
 class Sim:
     """description of one simulator for the harness; subclasses below"""
     thorough = False
+    scale = 1.0          # case-count factor (weather cases are several times larger)
     name = None          # short name used in file names and failure classes
     coq_imports = None
     ctype = None
@@ -152,6 +153,9 @@ class Sim:
     def key(self, st):
         return st
 
+    def prelude(self):
+        return ''
+
     def concat(self, parts):
         return ''.join(parts)
 
@@ -191,7 +195,7 @@ class Sim:
     def reply_ok(self, r):
         return bool(self.reply_re.match(r))
 
-    def echo_ok(self, stream, i, reply):
+    def echo_ok(self, stream, i, reply, outs=None):
         return None
 
     def c02_class(self, history, query, outs):
@@ -245,16 +249,16 @@ class Sim:
     def history(self, rng, n=None):
         """a mixed history: accepted commands, refused commands, garbage"""
         n = rng.randrange(0, 7) if n is None else n
-        out = ''
+        out = []
         for _ in range(n):
             r = rng.random()
             if r < 0.45:
-                out += self.valid_line(rng)
+                out.append(self.valid_line(rng))
             elif r < 0.7:
-                out += self.refused_line(rng)
+                out.append(self.refused_line(rng))
             else:
-                out += self.garbage(rng)
-        return out
+                out.append(self.garbage(rng))
+        return self.concat(out)
 
 
 # ---------------------------------------------------------------------------
@@ -460,7 +464,7 @@ class SwMatrix(Sim):
         return ['', 'set IF_switch_config=9\r\n', 'set IF_switch_config=0\r\n', 'set IF_switch_config=4\r\n',
                 'set IF_switch_config=99999999999999999999\r\n', 'foo bar\r\n', 'set IF_sw']
 
-    def echo_ok(self, stream, i, reply):
+    def echo_ok(self, stream, i, reply, outs=None):
         return None
 
     def snapshot(self, s):
@@ -538,7 +542,7 @@ def _run(ctx, sim, suite, streams, okfun=None):
     if cases:
         ctx.sample('%s: %s' % (suite, cases[len(cases) // 2][:300]))
     ctx.run_cases('%s_%s' % (suite, sim.name), sim.coq_imports, sim.ctype, okfun or sim.okfun, cases,
-                  show=sim.showfun, shard=ctx.n(120, 400))
+                  show=sim.showfun, shard=ctx.n(120, 400), prelude=sim.prelude())
 
 
 def corr_c03(ctx, sim):
@@ -546,7 +550,7 @@ def corr_c03(ctx, sim):
     rng = ctx.rng
     streams = list(sim.corpus('c03'))
     streams += sim.byte_sweep()
-    for _ in range(ctx.n(250, 2500)):
+    for _ in range(int(ctx.n(250, 2500) * sim.scale)):
         parts = []
         for _ in range(rng.randrange(1, 6)):
             r = rng.random()
@@ -573,7 +577,7 @@ def corr_c05(ctx, sim):
     rng = ctx.rng
     sim.thorough = not ctx.quick()
     streams = list(sim.corpus('c05'))
-    for _ in range(ctx.n(250, 2500)):
+    for _ in range(int(ctx.n(250, 2500) * sim.scale)):
         parts = []
         for _ in range(rng.randrange(2, 9)):
             r = rng.random()
@@ -593,7 +597,7 @@ def corr_c02(ctx, sim):
     """mixed history, resynchronisation, then every query of the catalogue"""
     rng = ctx.rng
     streams = list(sim.corpus('c02'))
-    for _ in range(ctx.n(200, 2000)):
+    for _ in range(int(ctx.n(200, 2000) * sim.scale)):
         h = sim.history(rng)
         if rng.random() < 0.3:
             line = sim.valid_line(rng)
@@ -607,7 +611,7 @@ def corr_c04(ctx, sim):
     Coq decoder of the protocol"""
     rng = ctx.rng
     streams = list(sim.corpus('c04'))
-    for _ in range(ctx.n(200, 2000)):
+    for _ in range(int(ctx.n(200, 2000) * sim.scale)):
         parts = []
         for _ in range(rng.randrange(1, 7)):
             r = rng.random()
@@ -676,7 +680,7 @@ def check_c04(sim, stream):
                 return (sim.c04_class('charset', stream, o[1]), 'reply %r is not transmittable as single bytes' % o[1])
             if not sim.reply_ok(o[1]):
                 return (sim.c04_class('shape', stream, o[1]), 'reply %r does not decode under the protocol' % o[1])
-            err = sim.echo_ok(stream, i, o[1])
+            err = sim.echo_ok(stream, i, o[1], outs)
             if err:
                 return (sim.name + '_c04_echo', err)
     return None
@@ -1023,3 +1027,501 @@ class GenLO(Sim):
 
 
 register(GenLO())
+
+
+# ---------------------------------------------------------------------------
+# W-band LO
+
+class WLO(Sim):
+    name = 'wlo'
+    repo_name = 'lo/w_LO'
+    coq_name = 'WLO'
+    coq_imports = 'From DS Require Import Model.SmbCommon Model.SmbWLO Corr.SmbWLOCorr.'
+    ctype = 'w_case'
+    okfun = 'w_ok'
+    okfun_wf = 'w_ok_wf'
+    showfun = 'w_show'
+    alphabet = 'setg W_LOfrqPolHVatRTmpu=0123456789.;\r\n enabldiUSB'
+    regs = {   # register -> (set name, get name, unit suffix of the read-back)
+        'freqH': ('set W_LO_freq_PolH', 'get W_LO_PolH', 'MHz'), 'freqV': ('set W_LO_freq_PolV', 'get W_LO_PolV', 'MHz'),
+        'attH': ('set LO_att_PolH', 'get LO_att_PolH', 'dB'), 'attV': ('set LO_att_PolV', 'get LO_att_PolV', 'dB'),
+        'refH': ('set W_LO_RefH', 'get W_LO_RefH', '.'), 'refV': ('set W_LO_RefV', 'get W_LO_RefV', '.'),
+    }
+    attrs = ['w_lo_freq_polH', 'w_lo_freq_polV', 'lo_att_polH', 'lo_att_polV', 'w_LO_refH', 'w_LO_refV']
+    registers = list(regs)
+    gets = ['get W_LO_PolH', 'get W_LO_PolV', 'get W_LO_Pols', 'get W_LO_Synths_Temp', 'get W_LO_HKP_Temp',
+            'get W_LO_RefH', 'get W_LO_RefV', 'get W_LO_status', 'get LO_att_PolH', 'get LO_att_PolV', 'get LO_atts']
+    queries = [g + '\r\n' for g in gets]
+    sweep_cmds = ['get W_LO_Pols\r', 'set LO_att_PolH=2.5\r']
+    noise_lines = ['\n', '\r\n', 'dummy;;\r\n', 'get W_LO_PolH\n', 'foo=1\r\n', ';\r\n']
+    item = r'(?:[^\n;]*\r\n)'
+    reply_re = re.compile(r'\A%s(?:;%s)*\Z' % (item, item))
+
+    def make(self):
+        from simulators.lo import System
+        return System(system_type='w_LO')
+
+    def tables(self, stream):
+        ftab, ctab = [], []
+        cands = ['']
+        for line in stream.split('\n'):
+            for cmd in line.split(';'):
+                a = cmd.split('=')
+                if len(a) >= 2 and a[1] not in [k for k, _ in ftab]:
+                    try:
+                        f = float(a[1])
+                        ftab.append((a[1], '(WFloat %s)' % s2z(repr(f))))
+                        cands.append(repr(f))
+                    except ValueError:
+                        ftab.append((a[1], 'WNotFloat'))
+                        cands.append(a[1][:-1])
+        for c in ['0.0'] + cands:
+            if c not in [k for k, _ in ctab]:
+                ctab.append((c, s2z(c.capitalize())))
+        return ftab, ctab
+
+    @staticmethod
+    def val(v):
+        if isinstance(v, float):
+            return ('F', repr(v))
+        assert isinstance(v, str), v
+        return ('S', v)
+
+    def snapshot(self, s):
+        return (s.msg, s.w_USB_devs, [self.val(getattr(s, a)) for a in self.attrs])
+
+    def device(self, s):
+        return dict(usb=s.w_USB_devs, regs=[self.val(getattr(s, a)) for a in self.attrs],
+                    fixed=(s.w_LO_Synths_Temp, s.w_LO_HKP_Temp, s.status_W_LO_PolH, s.status_W_LO_PolV))
+
+    def set_device(self, t, dev):
+        t.w_USB_devs = dev['usb']
+        for a, (k, v) in zip(self.attrs, dev['regs']):
+            setattr(t, a, float(v) if k == 'F' else v)
+
+    def case(self, stream):
+        s = self.make()
+        outs = self.feed(s, stream)
+        msg, usb, regs = self.snapshot(s)
+        ftab, ctab = self.tables(stream)
+        rt = '[' + '; '.join('(%s %s)' % ('WF' if k == 'F' else 'WS', s2z(v)) for k, v in regs) + ']'
+        t = 'WCase %s %s %s %s %s %s %s' % (table_term(ftab, str), table_term(ctab, str), s2z(stream),
+                                             obs_term(outs), s2z(msg), zlit(usb), rt)
+        return t, outs, (msg, usb, regs)
+
+    def num_tok(self, rng):
+        return rng.choice(['%d' % rng.randrange(0, 200), '%.2f' % rng.uniform(0, 100), '12.23', '1e3', '-0.0', 'nan',
+                           'inf', '1_0.5', ' 7 ', '0.1', '1e22', '1e16', '5'])
+
+    def str_tok(self, rng):
+        return rng.choice(['INT', 'EXT', 'int', 'eXT', 'abc', '', 'x', '1.2.3', '\xff', '\xdf', '\xb5a', 'a\xc0', 'nan_',
+                           'I N T', 'in\rt'])
+
+    def reg_token(self, rng, reg):
+        r = rng.random()
+        if reg.startswith('ref'):
+            return self.str_tok(rng) if r < 0.7 else self.num_tok(rng)
+        return self.num_tok(rng) if r < 0.75 else self.str_tok(rng)
+
+    def reg_write(self, reg, tok):
+        return '%s=%s\r\n' % (self.regs[reg][0], tok)
+
+    def reg_read(self, reg):
+        return self.regs[reg][1] + '\r\n'
+
+    def reg_acked(self, reg, tok, outs):
+        return outs[-1] == ('R', 'ACK\r\n')
+
+    def reg_enc(self, reg, tok):
+        # documented domain: a number for frequencies / attenuations, a word for the references
+        if reg.startswith('ref'):
+            if re.fullmatch(r'[A-Za-z]+', tok):
+                return tok[0].upper() + tok[1:].lower() + '.\r\n'
+            return ('any',)
+        try:
+            f = float(tok)
+        except ValueError:
+            return ('any',)
+        return repr(f) + self.regs[reg][2] + '\r\n'
+
+    def reg_match(self, reg, got, want):
+        return True if want == ('any',) else got == want
+
+    def line_acked(self, line, outs):
+        return any(o[0] == 'R' and 'ACK' in o[1] for o in outs)
+
+    def writes_reg(self, reg, text):
+        return self.regs[reg][0] in text
+
+    def between_ok(self, reg, between, outs):
+        return not self.writes_reg(reg, between)
+
+    def non_writing_line(self, rng, reg):
+        for _ in range(20):
+            r = rng.random()
+            other = rng.choice([x for x in self.registers if x != reg])
+            c = (rng.choice(self.queries) if r < 0.4 else self.reg_write(other, self.reg_token(rng, other)) if r < 0.7
+                 else self.refused_line(rng) if r < 0.85 else self.garbage_line(rng))
+            if not self.writes_reg(reg, c):
+                return c
+        return self.queries[0]
+
+    def c05_refused_class(self, line, outs):
+        if ';' in line and any(o[0] == 'EX' for o in outs):
+            return 'wlo_partial_line_exception'
+        return 'wlo_c05_refused_write_changed_state'
+
+    def c04_class(self, kind, stream, reply):
+        if kind == 'charset' and reply.endswith('.\r\n'):
+            return 'wlo_ref_capitalize_non_latin1'
+        return 'wlo_c04_' + kind
+
+    def valid_line(self, rng):
+        k = rng.randrange(10)
+        if k < 4:
+            body = rng.choice(self.gets) + '\r'
+        elif k < 8:
+            reg = rng.choice(self.registers)
+            body = '%s=%s\r' % (self.regs[reg][0], self.reg_token(rng, reg))
+        elif k == 8:
+            body = rng.choice(['enable USB_devs', 'disable USB_devs']) + '\r'
+        else:
+            body = ';'.join(rng.choice(['set LO_att_PolH=3', 'set W_LO_RefV=EXT\r', 'get LO_atts\r', 'get W_LO_Pols\r',
+                                        'dummy', '']) for _ in range(rng.randrange(2, 4))) + '\r'
+        return body + '\n'
+
+    def refused_line(self, rng):
+        k = rng.randrange(6)
+        if k == 0:
+            return rng.choice(['dummy\r\n', 'get W_LO_PolH\n', 'get W_LO_Pol\r\n', 'foo=1\r\n', 'set W_LO_RefH 5\r\n',
+                               '\r\n', 'enable USB_dev\r\n', 'GET LO_atts\r\n'])
+        if k == 1:
+            return rng.choice(self.gets) + '=%s\r\n' % rng.choice(['1', 'x', ''])
+        if k == 2:
+            return rng.choice([v[0] for v in self.regs.values()]) + '\r\n'
+        if k == 3:
+            return 'set LO_att_PolH=%s;%s\r\n' % (self.num_tok(rng), rng.choice(['get LO_atts=1', 'set LO_att_PolV\r', 'foo']))
+        if k == 4:
+            return rng.choice(['set W_LO_freq_PolH=1=2\r\n', 'set W_LO_freq_PolH==2\r\n', '=5\r\n', 'set LO_att_PolH =5\r\n'])
+        return 'get W_LO_PolH;get W_LO_PolV\r\n'
+
+    def c05_seeds(self):
+        return [('', 'refH', t, 'get W_LO_RefV\r\nset W_LO_RefV=5\r\n') for t in ('5', 'INT', 'ext', '1e3')] + \
+               [('', 'freqH', t, 'set W_LO_freq_PolV=3\r\nget W_LO_Pols\r\n') for t in ('12.23', '5', 'abc')]
+
+    def c05_refused_seeds(self):
+        return [('', 'set LO_att_PolH=1;get LO_atts=2\r\n'), ('', 'foo=1\r\n'), ('set W_LO_RefH=INT\r\n', 'set W_LO_RefH\r\n')]
+
+    def c02_histories(self):
+        return ['', 'set W_LO_RefH=5\r\n', 'set W_LO_RefV=1e3\r\n', 'dummy\r\n', '\r\n', 'set W_LO_freq_PolH=abc\r\n',
+                'set W_LO_RefH=nan\r\n', 'get W_LO']
+
+    def c04_streams(self):
+        return ['set W_LO_RefH=\xff\r\nget W_LO_RefH\r\n', 'set W_LO_RefV=\xb5a\r\nget W_LO_RefV\r\n',
+                'set W_LO_RefH=5\r\nget W_LO_RefH\r\n']
+
+
+register(WLO())
+
+
+# ---------------------------------------------------------------------------
+# weather station (per-thread receive buffers; streams are lists of (thread id, character))
+
+class _FakeThread:
+    ident = 1
+
+
+class _FrozenDatetimeModule:
+    """stands in for the `datetime` module inside simulators.weather_station"""
+    class datetime:
+        @staticmethod
+        def utcnow():
+            import datetime as _dt
+            return _dt.datetime(2026, 10, 1, 12, 0, 0)
+
+
+class Weather(Sim):
+    name = 'weather'
+    repo_name = 'weather_station'
+    coq_name = 'Weather'
+    coq_imports = 'From DS Require Import Model.SmbCommon Model.SmbWeather Corr.SmbWeatherCorr.'
+    ctype = 'ws_case'
+    okfun = 'ws_ok'
+    okfun_wf = 'ws_ok_wf'
+    showfun = 'ws_show'
+    TIDS = [1, 2, 3]
+    scale = 0.3
+    golden = {   # documented sensor table (id -> info), independent of the code under test
+        'th01': 'heating temp [oC]', 'vh01': 'heating voltage [V]', 'vs01': 'supply voltage [V]',
+        'vr01': 'rif. voltage [V]', 'dn01': 'wind dir min [deg]', 'dm01': 'wind dir ave [deg]',
+        'dx01': 'wind dir max [deg]', 'sn01': 'wind speed min [m/s]', 'sm01': 'wind speed ave [m/s]',
+        'sx01': 'wind speed max [m/s]', 'ta01': 'air temp [oC]', 'ua01': 'rel. humidity [%]',
+        'pa01': 'air pressure [hPa]', 'rc01': 'rain amount [mm]', 'rd01': 'rain duration [s]',
+        'ri01': 'rain intensity [mm/h]', 'rp01': 'rain peak duration [s]', 'hc01': 'hail amount [hits/cm2]',
+        'hd01': 'hail duration [s]', 'hi01': 'hail intensity [hits/cm2h]', 'hp01': 'hail peak duration [s]'}
+    ids = list(golden)
+    registers = ids
+    err = ('<Sensor><Id>sintax error or sensor not found</Id><Val>1.000000</Val><Date>error</Date>'
+           '<Info>error</Info></Sensor>')
+    reply_re = re.compile(r'\A<Sensor><Id>.*?</Id><Val>.*?</Val><Date>.*?</Date><Info>.*?</Info></Sensor>\Z', re.S)
+    noise_outcomes = ('T', 'F')
+
+    def T(self, text, tid=1):
+        return [(tid, c) for c in text]
+
+    @property
+    def queries(self):
+        return [self.T('r %s\n' % i) for i in self.ids]
+
+    @property
+    def noise_lines(self):
+        return [self.T('\n'), self.T('x'), self.T('rx'), self.T('r \n'), self.T('w th01\n'), self.T('r th01 1 2\n'),
+                self.T('w th01 5\n', 2), self.T('\r\n', 3)]
+
+    def make(self):
+        import simulators.weather_station as ws
+        ws.current_thread = lambda: _FakeThread            # deterministic thread identity
+        ws.datetime = _FrozenDatetimeModule                # frozen clock
+        return ws.System()
+
+    def feed(self, system, stream):
+        outs = []
+        for tid, ch in stream:
+            _FakeThread.ident = tid
+            outs.append(classify(system.parse, ch))
+        _FakeThread.ident = 1
+        return outs
+
+    def unjson(self, v):
+        if isinstance(v, list) and v and isinstance(v[0], list):
+            return [(a, b) for a, b in v]
+        return v
+
+    def key(self, st):
+        return tuple(st)
+
+    def concat(self, parts):
+        out = []
+        for p in parts:
+            out += p
+        return out
+
+    def resync(self, rng):
+        return [(t, '\n') for t in self.TIDS]
+
+    def corrupt(self, rng, s):
+        if not s:
+            return self.T('x')
+        tid = s[0][0]
+        return self.T(corrupt(rng, ''.join(c for _, c in s)), tid)
+
+    def buffer_idle(self, s):
+        return s.msg == {}
+
+    @staticmethod
+    def fmt(tok):
+        try:
+            v = float(tok)
+        except ValueError:
+            v = 0.0
+        return f'{v:0.6f}'
+
+    def sens(self, s):
+        return [(k, f'{float(v[0]):0.6f}', v[1], v[2]) for k, v in s.sensors.items()]
+
+    def device(self, s):
+        return dict(sensors=self.sens(s))
+
+    def set_device(self, t, dev):
+        for k, val, date, info in dev['sensors']:
+            t.sensors[k] = [float(val), date, info]
+
+    def readbacks(self, s):
+        c = copy.deepcopy(s)
+        return [self.feed(c, q)[-1] for q in self.queries]
+
+    def snapshot(self, s):
+        return (sorted(s.msg.items()), self.sens(s))
+
+    def sens_term(self, sens):
+        return '[' + '; '.join('mkSen %s %s %s %s' % tuple(s2z(x) for x in r) for r in sens) + ']'
+
+    def prelude(self):
+        # the initial sensor table, read from a real instance (the clock is frozen, so it is the same
+        # for every instance of the run); cases refer to it by name to keep the case files small
+        self.cfg0 = self.sens(self.make())
+        return 'Definition ws_cfg0 : list sensor := %s.' % self.sens_term(self.cfg0)
+
+    def case(self, stream):
+        s = self.make()
+        cfg = self.sens(s)
+        outs = self.feed(s, stream)
+        bufs, sens = self.snapshot(s)
+        if getattr(self, 'cfg0', None) is None:
+            self.prelude()
+        toks = []
+        texts = {}
+        for tid, ch in stream:
+            texts[tid] = texts.get(tid, '') + ch
+        for text in texts.values():
+            for line in text.split('\n'):
+                for a in line.split():
+                    if a not in toks:
+                        toks.append(a)
+        tab = [(t, self.fmt(t)) for t in toks]
+        tids = sorted(set([t for t, _ in stream] + self.TIDS))
+        assert all(isinstance(k, int) and isinstance(v, str) for k, v in bufs)
+        changed = [r for r, r0 in zip(sens, cfg) if r != r0]
+        assert len(sens) == len(cfg)
+        t = 'WsCase %s %s %s %s %s %s %s' % (
+            'ws_cfg0' if cfg == self.cfg0 else self.sens_term(cfg), table_term(tab, s2z), zlist(tids),
+            '[' + '; '.join('(%d, %d)' % (tid, ord(c)) for tid, c in stream) + ']', obs_term(outs),
+            '[' + '; '.join('(%d, %s)' % (k, s2z(v)) for k, v in bufs) + ']', self.sens_term(changed))
+        return t, outs, (bufs, sens)
+
+    def val_tok(self, rng):
+        return rng.choice(['10.0', '%d' % rng.randrange(-50, 1000), '%.3f' % rng.uniform(-100, 1100), '1e3', '-0.0',
+                           '2.5e-7', '0.0000005', '1234567.1234565', 'nan', 'inf', '1_0', 'wrong', 'x', '1,5', '--1'])
+
+    def date_tok(self, rng):
+        return rng.choice(['20261001120000', '20200229235959', 'wrong_date', '#', '0', '<b>', '\xe9t\xe9'])
+
+    def one_line(self, rng, tid):
+        k = rng.randrange(10)
+        sid = rng.choice(self.ids)
+        if k < 4:
+            text = 'r %s' % sid
+        elif k < 8:
+            text = 'w %s %s %s' % (sid, self.val_tok(rng), self.date_tok(rng))
+        elif k == 8:
+            text = 'r  %s ' % sid
+        else:
+            text = 'w\t'.replace('\t', ' ') + ' %s  %s\t%s' % (sid, self.val_tok(rng), self.date_tok(rng))
+        return self.T(text + '\n', tid)
+
+    def valid_line(self, rng):
+        if rng.random() < 0.25:        # two threads interleaved byte by byte
+            a, b = self.one_line(rng, 1), self.one_line(rng, rng.choice([2, 3]))
+            out = []
+            while a or b:
+                src = a if (a and (not b or rng.random() < 0.5)) else b
+                out.append(src.pop(0))
+            return out
+        return self.one_line(rng, rng.choice(self.TIDS))
+
+    def refused_line(self, rng):
+        tid = rng.choice(self.TIDS)
+        sid = rng.choice(self.ids)
+        text = rng.choice(['r unkn', 'w unkn 10.0 2020', 'r %s 10.0 2020' % sid, 'w %s' % sid, 'w %s 10.0' % sid,
+                           'w %s 1 2 3' % sid, 'r', 'r ', 'w  ', 'c', 'rx', 'R %s' % sid, 'r %s x' % sid, 'r\t%s' % sid,
+                           'r TH01', ' r %s' % sid, 'rr %s' % sid])
+        return self.T(text + '\n', tid)
+
+    def garbage(self, rng):
+        tid = rng.choice(self.TIDS)
+        k = rng.randrange(5)
+        if k == 0:
+            return self.T(rand_bytes(rng, rng.randrange(1, 20)), tid)
+        if k == 1:
+            return self.T(rand_bytes(rng, rng.randrange(1, 12), 'rw  \n\tth01 5.x'), tid)
+        if k == 2:
+            return self.corrupt(rng, self.one_line(rng, tid))
+        if k == 3:
+            line = self.one_line(rng, tid)
+            return line[:rng.randrange(len(line))]
+        return self.T('r ' + rand_bytes(rng, rng.randrange(0, 8)) + '\n', tid)
+
+    def garbage_line(self, rng):
+        g = self.garbage(rng)
+        tid = g[0][0] if g else 1
+        return [(t, c) for t, c in g if c != '\n'] + [(tid, '\n')]
+
+    def probe(self, rng):
+        return self.T('r %s\n' % rng.choice(self.ids), rng.choice(self.TIDS))
+
+    def all_queries(self, rng):
+        qs = [self.T('r %s\n' % i, rng.choice(self.TIDS)) for i in rng.sample(self.ids, 6)]
+        return qs
+
+    def byte_sweep(self):
+        out = []
+        for v in range(0, 256, 1 if self.thorough else 3):
+            c = chr(v)
+            out.append(self.T(c + 'r th01\n') + self.T('r' + c + 'th01\n', 2) + self.T('r ' + c + 'h01\n', 3)
+                       + self.T('r th01' + c + '\n') + self.T('w ta01 5' + c + '1 d' + c + '\n', 2))
+        return out
+
+    # -- C05 -------------------------------------------------------------------
+    def reg_token(self, rng, reg):
+        return '%s %s' % (self.val_tok(rng), self.date_tok(rng))
+
+    def reg_write(self, reg, tok):
+        return self.T('w %s %s\n' % (reg, tok))
+
+    def reg_read(self, reg):
+        return self.T('r %s\n' % reg, 2)
+
+    def reg_acked(self, reg, tok, outs):
+        return outs[-1][0] == 'R' and outs[-1][1] != self.err
+
+    def reg_enc(self, reg, tok):
+        val, date = tok.split()
+        try:
+            v = float(val)
+        except ValueError:
+            return ('any',)        # documented by the test-suite: an unparsable value is written as 0.0
+        return '<Sensor><Id>%s</Id><Val>%s</Val><Date>%s</Date><Info>%s</Info></Sensor>' % (
+            reg, f'{v:0.6f}', date, self.golden[reg])
+
+    def reg_match(self, reg, got, want):
+        return True if want == ('any',) else got == want
+
+    def line_acked(self, line, outs):
+        return any(o[0] == 'R' and o[1] != self.err and ''.join(c for _, c in line).lstrip().startswith('w') for o in outs)
+
+    def between_ok(self, reg, between, outs):
+        return ('w %s' % reg) not in ''.join(c for _, c in between) and \
+            not any(t != between[0][0] for t, _ in between[:0])
+
+    def non_writing_line(self, rng, reg):
+        for _ in range(20):
+            r = rng.random()
+            other = rng.choice([x for x in self.ids if x != reg])
+            c = (self.probe(rng) if r < 0.4 else self.T('w %s %s\n' % (other, self.reg_token(rng, other)), rng.choice(self.TIDS))
+                 if r < 0.7 else self.refused_line(rng) if r < 0.85 else self.garbage_line(rng))
+            if reg not in ''.join(ch for _, ch in c):
+                return c
+        return self.probe(rng)
+
+    def write_line(self, rng):
+        reg = rng.choice(self.ids)
+        return self.T('w %s %s\n' % (reg, self.reg_token(rng, reg)), rng.choice(self.TIDS))
+
+    def echo_ok(self, stream, i, reply, outs=None):
+        if reply == self.err:
+            return None
+        tid = stream[i][0]
+        line = ''            # the thread's bytes since its framer was last reset (any outcome but True)
+        for j in range(i):
+            if stream[j][0] == tid:
+                line = line + stream[j][1] if outs[j][0] == 'T' else ''
+        args = line.strip().split()
+        want = '<Sensor><Id>%s</Id>' % (args[1] if len(args) > 1 else '?')
+        if not reply.startswith(want):
+            return 'reply %r does not name the sensor of the request %r' % (reply, line)
+        return None
+
+    def c05_seeds(self):
+        return [('', 'th01', '10.0 20261001', self.T('r th01\n', 3) + self.T('w ta01 1 2\n'))]
+
+    def c05_refused_seeds(self):
+        return [([], self.T('w unkn 10.0 2020\n')), ([], self.T('w th01 10.0\n')), ([], self.T('r th01 10.0 2020\n'))]
+
+    def c02_histories(self):
+        return [[], self.T('w th01 nan x\n'), self.T('w th01 inf x\n'), self.T('r th'), self.T('w rp01 wrong #\n')]
+
+    def c04_streams(self):
+        return [self.T('w th01 1e300 <x>\n') + self.T('r th01\n', 2)]
+
+
+register(Weather())
